@@ -1,1 +1,252 @@
-pub fn placeholder() {}
+//! MiniLua: an implementation of the subset of Lua 5.3 needed to load and
+//! run the output of the Sylt -> Lua compiler, written from the Lua 5.3
+//! reference manual. It is used as a stand-in oracle for `lua5.3`.
+//!
+//! * [`load`] parses and statically checks a chunk (no execution). The
+//!   resulting [`Chunk`] is immutable, `Send + Sync` (the AST is shared through
+//!   an `Arc` and contains no `Rc`) and can be run any number of times in any
+//!   number of states.
+//! * [`Lua`] is one global state. It is **not** `Send` (values use `Rc`).
+//!   Create one per test case on the worker thread.
+//!
+//! Native stack: the evaluator is a recursive tree walker. A Lua-level call
+//! costs roughly 1-2 KB of native stack in typical generated code and at most
+//! ~300 KB in the pathological case (200 syntactic nesting levels inside every
+//! function). With the default call-depth limit of 180, run on a thread with a
+//! stack of 64 MB or more, or lower the guard with
+//! [`Lua::set_native_stack_limit`] to about 3/4 of the thread's stack size:
+//! the guard turns native exhaustion into a `StackOverflow` error.
+
+pub mod ast;
+pub mod interp;
+pub mod lexer;
+pub mod lstrlib;
+pub mod numfmt;
+pub mod ops;
+pub mod parser;
+pub mod stdlib;
+pub mod value;
+
+use std::sync::Arc;
+
+use ast::ChunkInner;
+pub use interp::ErrorKind;
+use value::Value;
+
+/// A syntax / static-check error, in Lua's wording (without the
+/// `chunkname:line:` prefix, which is `format!("{}:{}: {}", name, line, msg)`).
+#[derive(Debug, Clone)]
+pub struct LoadError {
+    pub line: u32,
+    pub msg: String,
+}
+
+impl std::fmt::Display for LoadError {
+    fn fmt(&self, f: &mut std::fmt::Formatter<'_>) -> std::fmt::Result {
+        write!(f, "{}: {}", self.line, self.msg)
+    }
+}
+
+/// Parsed and resolved chunk.
+#[derive(Clone)]
+pub struct Chunk {
+    inner: Arc<ChunkInner>,
+}
+
+pub(crate) fn load_inner(src: &[u8], chunkname: &str, skip_hash_line: bool) -> Result<Arc<ChunkInner>, LoadError> {
+    let p = parser::Parser::new(src, skip_hash_line);
+    match p.parse_chunk(chunkname) {
+        Ok(c) => Ok(Arc::new(c)),
+        Err(e) => Err(LoadError { line: e.line, msg: e.msg }),
+    }
+}
+
+/// Full syntax + static checks of a chunk, no execution. `chunkname` is the
+/// name shown in messages (`stdin` gives `stdin:12: ...`); a leading `=` or
+/// `@` is stripped like `luaO_chunkid` does.
+pub fn load(src: &[u8], chunkname: &str) -> Result<Chunk, LoadError> {
+    let name = chunkname.strip_prefix('=').or_else(|| chunkname.strip_prefix('@')).unwrap_or(chunkname);
+    load_inner(src, name, true).map(|inner| Chunk { inner })
+}
+
+impl Chunk {
+    pub fn name(&self) -> &str {
+        &self.inner.name
+    }
+    /// max over all functions of simultaneously declared local variables
+    /// (including the three hidden control variables of `for` loops, which
+    /// count against Lua's limit of 200)
+    pub fn max_active_locals(&self) -> usize {
+        self.inner.protos.iter().map(|p| p.max_active_locals as usize).max().unwrap_or(0)
+    }
+    fn names(&self, ids: &[u32]) -> Vec<String> {
+        ids.iter().map(|k| String::from_utf8_lossy(&self.inner.consts[*k as usize]).into_owned()).collect()
+    }
+    /// global (free) names that appear as assignment targets
+    pub fn free_names_assigned(&self) -> Vec<String> {
+        self.names(&self.inner.free_assigned)
+    }
+    /// global (free) names that are read
+    pub fn free_names_read(&self) -> Vec<String> {
+        self.names(&self.inner.free_read)
+    }
+    /// number of function prototypes, including the main function
+    pub fn function_count(&self) -> usize {
+        self.inner.protos.len()
+    }
+}
+
+#[derive(Debug, Clone)]
+pub struct LuaError {
+    pub kind: ErrorKind,
+    /// the error message (`tostring`-like rendering for non-string error values)
+    pub msg: String,
+    pub traceback: String,
+    pub value_is_string: bool,
+    /// exit code for `ErrorKind::Exit`
+    pub exit_code: i64,
+}
+
+impl std::fmt::Display for LuaError {
+    fn fmt(&self, f: &mut std::fmt::Formatter<'_>) -> std::fmt::Result {
+        f.write_str(&self.msg)
+    }
+}
+
+/// One Lua global state.
+pub struct Lua {
+    st: interp::Lua,
+}
+
+impl Default for Lua {
+    fn default() -> Self {
+        Lua::new()
+    }
+}
+
+impl Lua {
+    /// Fresh global state with the standard library subset.
+    pub fn new() -> Lua {
+        Lua { st: interp::Lua::new_state() }
+    }
+
+    /// Total instruction budget (statements, expression nodes, calls, loop
+    /// iterations each count one). Exceeding it aborts with `ErrorKind::Budget`;
+    /// `pcall` cannot catch that.
+    pub fn set_budget(&mut self, instructions: u64) {
+        self.st.limit = instructions;
+    }
+
+    /// Maximum call depth (Lua and native frames), default 180.
+    pub fn set_max_call_depth(&mut self, d: usize) {
+        self.st.max_depth = d.max(2);
+    }
+
+    /// Native stack the evaluator may use below the point where `run` was
+    /// called (default 48 MB). Set it to about 3/4 of the thread's stack.
+    pub fn set_native_stack_limit(&mut self, bytes: usize) {
+        self.st.native_stack_limit = bytes;
+    }
+
+    pub fn instructions_used(&self) -> u64 {
+        self.st.used
+    }
+
+    /// Execute the chunk as a main function without arguments. Globals persist
+    /// across calls.
+    pub fn run(&mut self, chunk: &Chunk) -> Result<(), LuaError> {
+        match self.st.run_main(&chunk.inner) {
+            Ok(()) => Ok(()),
+            Err(e) => Err(self.convert_error(*e)),
+        }
+    }
+
+    fn convert_error(&mut self, e: interp::LuaErrInner) -> LuaError {
+        let value_is_string = matches!(e.value, Value::Str(_));
+        let mut exit_code = 0;
+        let msg = match &e.value {
+            Value::Str(s) => String::from_utf8_lossy(s).into_owned(),
+            Value::Int(i) if e.kind == ErrorKind::Exit => {
+                exit_code = *i;
+                format!("exit {}", i)
+            }
+            v @ (Value::Int(_) | Value::Float(_)) => ops::tostring_plain(v),
+            other => {
+                // like lua.c's msghandler: use __tostring if present
+                let saved = self.st.limit;
+                self.st.limit = self.st.used.saturating_add(100_000);
+                let h = self.st.metamethod(other, b"__tostring");
+                let r = if !h.is_nil() {
+                    match self.st.call1(h, &[other.clone()]) {
+                        Ok(Value::Str(s)) => Some(String::from_utf8_lossy(&s).into_owned()),
+                        _ => None,
+                    }
+                } else {
+                    None
+                };
+                self.st.limit = saved;
+                self.st.stack.clear();
+                self.st.ci.clear();
+                r.unwrap_or_else(|| format!("(error object is a {} value)", other.type_name()))
+            }
+        };
+        LuaError {
+            kind: e.kind,
+            msg,
+            traceback: "stack traceback:\n\t[C]: in ?".to_string(),
+            value_is_string,
+            exit_code,
+        }
+    }
+
+    /// Everything `print` / `io.write` wrote so far; clears the buffer.
+    pub fn take_output(&mut self) -> Vec<u8> {
+        std::mem::take(&mut self.st.out)
+    }
+
+    /// Handler for `require "x"` (called once per module name; the handler
+    /// usually runs another chunk in this state - that must be done by the
+    /// caller after `run` returns, or beforehand). Without a handler `require`
+    /// raises "module 'x' not found:...".
+    pub fn set_require_handler(&mut self, f: Box<dyn FnMut(&str) -> Result<(), String>>) {
+        self.st.require_handler = Some(f);
+    }
+
+    /// Names of all string-keyed globals that are currently non-nil.
+    pub fn global_names_assigned(&self) -> Vec<String> {
+        let g = self.st.globals.borrow();
+        let mut v = Vec::new();
+        let mut k = Value::Nil;
+        while let Ok(Some((nk, _))) = g.next(&k) {
+            if let Value::Str(s) = &nk {
+                v.push(String::from_utf8_lossy(s).into_owned());
+            }
+            k = nk;
+        }
+        v
+    }
+
+    /// `tostring` of a global (for tests / harness convenience), without metamethods.
+    pub fn global_to_string(&self, name: &str) -> String {
+        let v = self.st.globals.borrow().get_str(name.as_bytes());
+        ops::tostring_plain(&v)
+    }
+
+    /// Write output directly to stdout in 64 KB blocks (used by the `lua` binary).
+    pub fn set_stream_stdout(&mut self, on: bool) {
+        self.st.stream_stdout = on;
+    }
+
+    pub fn flush_stdout(&mut self) {
+        self.st.flush_stdout();
+    }
+}
+
+#[cfg(test)]
+mod send_sync {
+    fn assert_send_sync<T: Send + Sync>() {}
+    #[test]
+    fn chunk_is_send_sync() {
+        assert_send_sync::<super::Chunk>();
+    }
+}
